@@ -9,6 +9,7 @@ mod gen;
 mod prog;
 mod rec;
 mod run;
+mod vecops;
 
 pub type F = midnight_curves::Fq;
 
